@@ -50,7 +50,7 @@ LEVEL_TEXT = ('Theorems (Props/C01.v, closed under the global context) over a st
               'any pairs, arithmetic with any operand); with eval restricted to shape-preserving expressions the invariant holds over sequences of any '
               'length (C01_step_wf_partial, C01_run_wf_partial, C01_trace_wf_partial); unlimited flags of surviving dimensions are kept '
               '(C01_step_unlimited_partial, 13 of 14 operations); without the eval side condition the statement is refuted by vm_compute witnesses '
-              'replayed on the library (C01_eval_index_refuted, C01_eval_broadcast_refuted, C01_run_wf_refuted) = known finding; the completion clause is refuted for scalar-returning callables on a non-leading axis (C01_apply_scalar_completion_refuted) = known finding. '
+              'replayed on the library (C01_eval_index_refuted, C01_eval_broadcast_refuted, C01_run_wf_refuted) = known finding; the completion clause is proved for applyAlongDimensions on its documented domain (C01_apply_completes). '
               'Tie H: structure after every step, incl. raises.')
 LEVEL_NOTE = 'Trusted: Coq kernel + vm_compute; the correspondence harness; numpy broadcasting/slicing rules as modelled; values not modelled.'
 
@@ -483,14 +483,6 @@ def py_check_io(case, obs):
             w.append('IOAPI file whose TSTEP dimension is not unlimited')
         if w:
             why.append('after step %d (%s): %s' % (i, json.dumps(case['ops'][i - 1]) if i else 'from_arrays', '; '.join(w)))
-            # known-defect region 3: ROW and COL both selected by index lists (the wrapper then deletes both dimensions)
-            # while some variable carries only one of them and therefore keeps it
-            if i:
-                op = case['ops'][i - 1]
-                lists = {d for d, sel in op.get('sels', []) if sel[0] == 'list'} if op['op'] == 'slice' else set()
-                prev = obs['states'][i - 1]
-                if {'ROW', 'COL'} <= lists and any(('ROW' in vd) != ('COL' in vd) for k, vd, sh, aok in prev['vars']):
-                    region = 3
             break
     for i in range(1, len(obs['states'])):
         a, b = obs['states'][i - 1], obs['states'][i]
@@ -536,8 +528,6 @@ def py_check(case, obs):
         coord_ok = all(vd == [k] for k, vd, sh, m, at, cm in cur['vars'] if k in dimids)
         if all(d in have for d, a in op['funs']) and all(n > 0 for k, n, u in cur['dims']) and not wf_state(cur) and coord_ok:
             why.append('applyAlongDimensions(%s) raised %s' % (op['funs'], obs['raised']))
-            if any(a[0] == 'scalar' for d, a in op['funs']):
-                region = 2
     return dict(s_ok=not why, why='; '.join(why), region=region)
 
 
